@@ -42,9 +42,9 @@ struct St
 
 enum { F_SHORT = 0, F_FLIP, F_DROP, F_DUP, F_NUL, F_OPEN, F_TRUNC };
 const char *fault_names[] = {"short_read", "flipped_byte", "dropped_byte", "duplicated_byte", "nul_byte", "open_failure", "file_truncated", nullptr};
-enum { P_DOC = 0, P_RTERR, P_TREE_EQUAL, P_TRUNC_IN_STRING, P_TRUNC_IN_COMMENT, P_RAW_ACCEPTED, P_DEPTH_GE4, P_SHORT_READ_HIT, P_TRUNC_AFTER_BACKSLASH, P_PRE_GE8, P_BIG_FILE, P_SOAK, P_SOAK_ACCEPTED, P_STRETCH };
+enum { P_DOC = 0, P_RTERR, P_TREE_EQUAL, P_TRUNC_IN_STRING, P_TRUNC_IN_COMMENT, P_RAW_ACCEPTED, P_DEPTH_GE4, P_SHORT_READ_HIT, P_TRUNC_AFTER_BACKSLASH, P_PRE_GE8, P_BIG_FILE, P_SOAK, P_SOAK_ACCEPTED, P_STRETCH, P_ODD_HEADER };
 const char *probe_names[] = {"returned_document", "threw_runtime_error", "tree_compared_equal", "truncated_inside_quoted_string",
-                             "truncated_inside_comment", "raw_bytes_accepted_as_document", "tree_depth_ge_4", "short_read_refused_bytes", "cut_right_after_a_backslash", "eight_or_more_rejected_reads_before_the_document", "file_of_64KiB_or_more", "same_incomplete_copy_read_200_to_1600_times_first", "incomplete_copy_accepted_500_times_or_more", "one_element_far_larger_than_the_rest", nullptr};
+                             "truncated_inside_comment", "raw_bytes_accepted_as_document", "tree_depth_ge_4", "short_read_refused_bytes", "cut_right_after_a_backslash", "eight_or_more_rejected_reads_before_the_document", "file_of_64KiB_or_more", "same_incomplete_copy_read_200_to_1600_times_first", "incomplete_copy_accepted_500_times_or_more", "one_element_far_larger_than_the_rest", "header_with_an_unusual_version_value", nullptr};
 
 const char IDCH1[] = "abcXYZ_";
 const char IDCH[] = "abcxyzABC019_.";
@@ -306,8 +306,19 @@ void do_plan(int tier)
   } else {
     if (sim_plan(2)) {
       text += "<?xml";
-      if (sim_plan(2))
-        text += " version=\"1.0\"" + std::string(sim_plan(2) ? " encoding='utf-8'" : "");
+      if (sim_plan(2)) {
+        // header properties are read and ignored, whatever their values
+        static const char *versions[] = {"1.0", "1.0", "1.0", "1.1", "2.0", "10", "2147483647", "2147483648", "99999999999999999999999", "1e999", "-1", "", "x", "0x7fffffffffffffff1"};
+        unsigned v = sim_plan(sizeof versions / sizeof versions[0]);
+        char q = sim_plan(2) ? '"' : '\'';
+        text += std::string(" version=") + q + versions[v] + q;
+        if (sim_plan(2))
+          text += " encoding='utf-8'";
+        if (sim_plan(4) == 0)
+          text += " standalone=\"yes\"";
+        if (v > 2)
+          sim_probe(P_ODD_HEADER);
+      }
       text += "?>";
     }
     text += gen_ws(false);
